@@ -593,11 +593,10 @@ func c10Creation(c *Ctx, p *Prog, m *Model) {
 		// existing child returned only when the lookup succeeded
 		// name: generated when absent or empty
 		gen := 0
-		for _, s := range sources(upd.Key) {
-			if c2, ok := s.(*ssa.Call); ok {
-				if cal := calleeOf(c2); cal != nil && strings.HasPrefix(nm(cal), "RandomString") {
-					gen++
-				}
+		// (on the key's term, so that a private helper generating the name counts)
+		for _, a := range newTermEval(p).eval(upd.Key, nil).alts() {
+			if a.contains(func(t *Term) bool { return t.Op == "call" && strings.Contains(t.Name, ".RandomString") }) {
+				gen++
 			}
 		}
 		r.Check(gen >= 1, "R10.4", "newChildLogger:anonymous", p.FuncPos(ncl), "an absent or empty name is replaced by a generated one", "no generated name for anonymous children")
